@@ -1,7 +1,9 @@
 package props
 
 import (
+	"context"
 	"encoding/json"
+	"errors"
 	"fmt"
 	"strings"
 	"time"
@@ -23,6 +25,8 @@ type c04Case struct {
 	Query     string `json:"query"`     // "" = whole alphabet in sequence
 	Second    string `json:"second,omitempty"`
 	Mem       bool   `json:"mem"`
+	// Abnormal: the query is made to end abnormally (consumer-error@k, deadline-expired, deadline-at-row-1)
+	Abnormal string `json:"abnormal,omitempty"`
 }
 
 func ts(s float64) string {
@@ -228,6 +232,9 @@ func c04Run(c *fw.Ctx, cs c04Case) {
 		}
 		mems = []bool{cs.Mem}
 	}
+	if cs.Abnormal != "" {
+		queries = nil
+	}
 	for _, q := range queries {
 		for _, mem := range mems {
 			c.Eval(1)
@@ -256,6 +263,67 @@ func c04Run(c *fw.Ctx, cs c04Case) {
 				c.Count("queries_refused", 1)
 			}
 			c.Outcome(fmt.Sprintf("%s|%v|%d", q, qerr, resLen(res)))
+		}
+	}
+	// queries that end abnormally - the consumer gives up at row k, the deadline has passed before the scan starts or
+	// passes while rows are delivered - are queries too: they must leave the stored data alone
+	if cs.Query == "" || cs.Abnormal != "" {
+		probeTable := "t1"
+		if cs.Schema == 1 {
+			probeTable = "tp"
+		}
+		abQueries := []string{"SELECT * FROM " + probeTable, "SELECT a FROM " + probeTable + " GROUP BY x"}
+		abMems := []bool{true, false}
+		abModes := []string{"consumer-error@1", "consumer-error@2", "deadline-expired", "deadline-at-row-1"}
+		if cs.Abnormal != "" {
+			abQueries, abMems, abModes = []string{cs.Query}, []bool{cs.Mem}, []string{cs.Abnormal}
+		}
+		for _, q := range abQueries {
+			for _, mem := range abMems {
+				for _, mode := range abModes {
+					c.Eval(1)
+					ctx, cancel := context.Background(), func() {}
+					switch mode {
+					case "deadline-expired":
+						ctx, cancel = context.WithDeadline(ctx, time.Now().Add(-time.Second))
+					case "deadline-at-row-1":
+						ctx, cancel = context.WithTimeout(ctx, 30*time.Millisecond)
+					}
+					n := 0
+					_, qerr := dbdrv.QueryZ(db.Z, ctx, q, mem, func(i int, r *dbdrv.Row) (bool, error) {
+						n++
+						switch {
+						case mode == "consumer-error@1" && n >= 1, mode == "consumer-error@2" && n >= 2:
+							return false, errors.New("consumer gave up")
+						case mode == "deadline-at-row-1" && n == 1:
+							time.Sleep(60 * time.Millisecond) // outlast the deadline while holding the scan
+						}
+						return true, nil
+					})
+					cancel()
+					after, err := c04Snapshot(db, cs.Schema)
+					if err != nil {
+						c.Violate("C04", "probe-error", err.Error(), cs)
+						return
+					}
+					one := cs
+					one.Query, one.Mem, one.Abnormal = q, mem, mode
+					if after.key != before.key {
+						c.Violate("C04", "failed-query-changed-stored-bytes", fmt.Sprintf("after %q ending with %s (includeMemStore=%v, err=%v) the decoded row stores differ:\nbefore %s\nafter  %s", q, mode, mem, qerr, trunc(before.key, 1500), trunc(after.key, 1500)), one)
+						return
+					}
+					for i := range before.probes {
+						if before.probes[i] != after.probes[i] {
+							c.Violate("C04", "failed-query-changed-probe", fmt.Sprintf("after %q ending with %s (includeMemStore=%v, err=%v) probe changed:\nbefore %s\nafter  %s", q, mode, mem, qerr, before.probes[i], after.probes[i]), one)
+							return
+						}
+					}
+					if qerr != nil {
+						c.Nontrivial(fmt.Sprintf("%v|%d|%s|%v|%s", cs.Inserts, cs.Placement, q, mem, mode))
+					}
+					c.Outcome(fmt.Sprintf("%s|%s|%v", q, mode, qerr != nil))
+				}
+			}
 		}
 	}
 	// the next flush must not surface anything either
@@ -316,7 +384,7 @@ func init() {
 	fw.Register(&fw.Prop{
 		ID:          "C04",
 		Level:       "model_checking",
-		Rule:        "storage states = distinct VerifDump keys reached by insert histories (all pairs, plus 16 / all triples, over the C03 alphabet) × placements {memory, disk, split, split+restart}, schemas {t1, tp}; on each state the whole query alphabet (48 t1 queries / 12 tp queries: select lists, derived and PERCENTILE-wrapping fields, absolute/relative/unaligned ASOF/UNTIL incl. ranges ending before the newest period, GROUP BY subsets, period multiples, STRIDE, SHIFT, CROSSHIFT, CROSSTAB(T), HAVING, WHERE, IN- and FROM-subqueries, ORDER/LIMIT) × includeMemStore {true,false}; oracle: decoded file+memstore bytes and 2 probe queries (with and without memstore) identical after each query, the baseline probes identical to those of a second fresh instance that issues them in the opposite order, probes identical again after the next flush; thorough adds ordered pairs (Q1;Q2) on fresh instances; non-trivial = query that returned rows",
+		Rule:        "storage states = distinct VerifDump keys reached by insert histories (all pairs, plus 16 / all triples, over the C03 alphabet) × placements {memory, disk, split, split+restart}, schemas {t1, tp}; on each state the whole query alphabet (48 t1 queries / 12 tp queries: select lists, derived and PERCENTILE-wrapping fields, absolute/relative/unaligned ASOF/UNTIL incl. ranges ending before the newest period, GROUP BY subsets, period multiples, STRIDE, SHIFT, CROSSHIFT, CROSSTAB(T), HAVING, WHERE, IN- and FROM-subqueries, ORDER/LIMIT) × includeMemStore {true,false}; oracle: decoded file+memstore bytes and 2 probe queries (with and without memstore) identical after each query, the baseline probes identical to those of a second fresh instance that issues them in the opposite order, probes identical again after the next flush; on every state also 2 queries × includeMemStore × 4 abnormal endings (consumer error at row 1 / 2, deadline already expired, deadline passing while row 1 is delivered); thorough adds ordered pairs (Q1;Q2) on fresh instances; non-trivial = query that returned rows",
 		Assumptions: []string{"walking the alphabet on one instance is sound because the byte-level state is verified unchanged after every query"},
 		Shards:      func(tier string) int { return 16 },
 		Budget: func(tier string) time.Duration {
